@@ -75,12 +75,27 @@ def tseytin_transformation(
         LEQ: _process_leq,
     }
 
-    def process_gate(label: str) -> Lit:
-        if label in saved_lits:
-            return saved_lits[label]
+    def process_gate(root: str) -> Lit:
+        # post-order walk with an explicit stack: a circuit deeper than the
+        # interpreter's recursion limit must still be encoded
+        stack: list[tuple[str, int]] = [(root, 0)]
+        while stack:
+            label, idx = stack.pop()
+            if label in saved_lits:
+                continue
+            operands = circuit.get_gate(label).operands
+            while idx < len(operands) and operands[idx] in saved_lits:
+                idx += 1
+            if idx < len(operands):
+                stack.append((label, idx + 1))
+                stack.append((operands[idx], 0))
+                continue
+            encode_gate(label)
+        return saved_lits[root]
+
+    def encode_gate(label: str) -> Lit:
         gate = circuit.get_gate(label)
-        operands = gate.operands
-        lits = [process_gate(lit) for lit in operands]
+        lits = [saved_lits[operand] for operand in gate.operands]
         gate_type = gate.gate_type
         top_lit = get_lit(label)
         if gate_type in (XOR, NXOR) and len(lits) > 2:
